@@ -205,6 +205,20 @@ func checkCover(o *Obligation, cfg SolverCfg) {
 	o.Output = fmt.Sprintf("z3-new: %s (%.2fs)\n", r.result, r.secs)
 	o.Solver = "z3-new"
 	if r.result == "unsat" {
+		if o.PreGoal != "" {
+			// call cover: only a contradiction INTRODUCED by the callee's contract counts (an unreachable call
+			// site is not the contract's fault)
+			fp := base + ".pre.smt2"
+			os.WriteFile(fp, []byte(o.Script.RenderCover(o.PreNFacts, o.PreGoal)), 0o644)
+			rp := runSolver(context.Background(), "z3-new", fp, t)
+			o.Output += fmt.Sprintf("before the call: z3-new: %s (%.2fs)\n", rp.result, rp.secs)
+			os.Remove(fp)
+			if rp.result == "unsat" {
+				o.Status = "proved"
+				os.Remove(fz)
+				return
+			}
+		}
 		o.Status = "failed"
 		return
 	}
